@@ -215,6 +215,8 @@ def unit_table():
     tab = {}
     for p in glob.glob(os.path.join(COQ, "Extract", "U_*.v")):
         for m in re.finditer(r"\(\*\s*UNIT\s+(\d+)\s+(\w+)", open(p).read()):
+            if m.group(2) in tab and tab[m.group(2)] != int(m.group(1)):
+                raise RuntimeError("duplicate correspondence unit name %s (%d, %d)" % (m.group(2), tab[m.group(2)], int(m.group(1))))
             tab[m.group(2)] = int(m.group(1))
     return tab
 
@@ -230,10 +232,52 @@ def _big_stack():
         pass
 
 
+def coq_term(v):
+    """python value -> Gallina term of type V"""
+    if isinstance(v, bool):
+        return "VI 1" if v else "VI 0"
+    if isinstance(v, int):
+        return "VI (%d)" % v
+    if isinstance(v, (bytes, bytearray)):
+        return "VB [" + "; ".join("x%02x" % b for b in bytes(v)) + "]"
+    return "VL [" + "; ".join(coq_term(x) for x in v) + "]"
+
+
 class Model:
+    SAMPLE_BYTES = 1500      # only small requests are re-evaluated inside Coq
+    SAMPLE_MAX = 40
+
     def __init__(self):
         self.units = unit_table()
         self.exe = os.path.join(BUILD, "driver")
+        self.samples = []        # (unit id, request, reply) kept for the in-Coq cross-check of the extraction
+        self._per_unit = {}
+
+    def _keep(self, uid, arg, reply, line_len):
+        if len(self.samples) >= self.SAMPLE_MAX or line_len > self.SAMPLE_BYTES or self._per_unit.get(uid, 0) >= 4:
+            return
+        self._per_unit[uid] = self._per_unit.get(uid, 0) + 1
+        self.samples.append((uid, arg, reply))
+
+    def cross_check(self, tag):
+        """re-evaluate the kept requests with vm_compute inside Coq and compare with the replies of the
+        extracted OCaml model.  returns (n_cases, n_mismatch, log)"""
+        if not self.samples:
+            return 0, 0, ""
+        d = os.path.join(BUILD, "cases_%s_%d" % (tag, os.getpid()))
+        os.makedirs(d, exist_ok=True)
+        src = os.path.join(d, "cases.v")
+        lines = ["From Model Require Import Base.", "From Extract Require Import Dispatch VEq.", "Open Scope Z_scope.",
+                 "Definition cases : list (Z * V * V) := ["]
+        lines.append(";\n".join("  (%d, %s, %s)" % (u, coq_term(a), coq_term(r)) for u, a, r in self.samples))
+        lines += ["].", "Eval vm_compute in map (fun c => v_eqb (dispatch (fst (fst c)) (snd (fst c))) (snd c)) cases."]
+        open(src, "w").write("\n".join(lines) + "\n")
+        rc, out = sh(["coqc"] + COQFLAGS + ["-o", os.path.join(d, "cases.vo"), src], cwd=COQ, timeout=600)
+        subprocess.run(["rm", "-rf", d])
+        n_true, n_false = len(re.findall(r"\btrue\b", out)), len(re.findall(r"\bfalse\b", out))
+        if rc != 0 or n_true + n_false != len(self.samples):
+            return len(self.samples), len(self.samples), out[-800:]
+        return len(self.samples), n_false, out[-400:] if n_false else ""
 
     def call_many(self, unit, args):
         """args: list of python values; returns list of decoded replies"""
@@ -250,7 +294,11 @@ class Model:
             lines.pop()
         if len(lines) != len(args):
             raise RuntimeError("model driver: %d replies for %d requests" % (len(lines), len(args)))
-        return [dec(l) for l in lines]
+        res = [dec(l) for l in lines]
+        if len(self.samples) < self.SAMPLE_MAX:
+            for a, l, r in zip(args[:6], lines[:6], res[:6]):
+                self._keep(uid, a, r, len(l) + len(enc(a)))
+        return res
 
     def call(self, unit, arg):
         return self.call_many(unit, [arg])[0]
